@@ -273,6 +273,14 @@ func dischargeAll(jobs []solveJob, workDir string, quickS, fullS int, all bool, 
 		o := j.o
 		if o.Goal.S == "true" {
 			o.Status, o.Backend = "proved", "trivial"
+			if o.Kind == "guard" {
+				o.Backend = "held-lock-set"
+			}
+			return
+		}
+		if o.Goal.S == "false" && o.Kind == "guard" {
+			// lock-discipline obligations are decided by the executor's held-lock set (no solver needed)
+			o.Status, o.Backend = "failed", "held-lock-set"
 			return
 		}
 		extra := ""
@@ -298,6 +306,9 @@ func dischargeAll(jobs []solveJob, workDir string, quickS, fullS int, all bool, 
 		recordResult(o, r, []solveResult{r}, fullS)
 		if o.Status == "proved" {
 			os.Remove(file)
+		}
+		if o.Status == "failed" {
+			o.Model = getModel(file, r.backend)
 		}
 	})
 	for i, j := range jobs {
